@@ -1454,6 +1454,11 @@ class MSgate(Channel):
     def __init__(self, r, phi=0.0, r_anc=10.0, eta_anc=1.0, avg=True):
         super().__init__([r, phi, r_anc, eta_anc, avg])
 
+    def merge(self, other):
+        # Channel.merge multiplies the first parameters, which is right for transmissivities
+        # but not for squeezing values; two measurement-based squeezers are left as they are
+        raise MergeFailure("Measurement-based squeezing gates cannot be merged.")
+
     def _apply(self, reg, backend, **kwargs):
         r, phi, r_anc, eta_anc, avg = par_evaluate(self.p)
         if avg:
@@ -2295,8 +2300,8 @@ class Fouriergate(Gate):
         super().__init__([np.pi / 2])
 
     def _decompose(self, reg, **kwargs):
-        # into a rotation
-        theta = np.pi / 2
+        # into a rotation. p[0] is pi/2 unless Fourier gates have been merged by the optimizer
+        theta = self.p[0]
         return [Command(Rgate(theta), reg)]
 
     def __str__(self):
